@@ -59,7 +59,7 @@ DURATIONS_STEP = [[0.0, "s"], [1.0, "s"], [30.0, "s"], [1.0, "min"], [10.0, "min
 DURATIONS_REQ = [[0.2, "s"], [1.0, "s"], [5.0, "s"], [2.0, "min"], [59.0, "min"], [1.0, "hour"], [61.0, "min"],
                  [90.0, "min"], [3.0, "hour"], [2.0, "hour"]]
 STORAGE_DURATIONS = [[1.0, "hour"], [3.0, "hour"], [7.0, "hour"], [2.0, "day"], [30.0, "day"], [1.0, "year"],
-                     [5.0, "year"]]
+                     [5.0, "year"], [90.0, "min"], [2.5, "hour"], [20.0, "min"], [4000.0, "s"], [0.3, "day"]]
 
 
 def q(strategy, unit):
